@@ -519,6 +519,7 @@ func runAlertRules(c *Ctx) {
 	var dirStores []string
 	fConst := c.constOf("gtfs", "DirectionID_False")
 	tConst := c.constOf("gtfs", "DirectionID_True")
+	uConst := c.constOf("gtfs", "DirectionID_Unspecified")
 	sawF, sawT, okDir := false, false, true
 	for _, fs := range collectFieldStores(c.regionOf(fn), "gtfs.AlertInformedEntity") {
 		if fs.field != "DirectionID" || (fs.fn == fn && sel.Blocks[fs.store.Block()]) {
@@ -541,6 +542,11 @@ func runAlertRules(c *Ctx) {
 			case tConst:
 				sawT = true
 				if !(hasGuard(gs, "-", "lookup(", ","+fConst+")") || hasGuard(gs, "+", "lookup(", ","+tConst+")")) {
+					okDir = false
+				}
+			case uConst:
+				// spelled out: unspecified exactly when both directions are informed
+				if !(hasGuard(gs, "+", "lookup(", ","+fConst+")") && hasGuard(gs, "+", "lookup(", ","+tConst+")")) {
 					okDir = false
 				}
 			default:
